@@ -75,6 +75,7 @@ InvP(n) == CASE n = "AtMostOnce"  -> AtMostOnceP(exec')
              [] n = "OnlyT4Error" -> OnlyT4ErrorP(pcd')
              [] n = "BlockFits"   -> BlockFitsP(slot', cfg)
              [] n = "CleanOk"     -> CleanOkP(pcd', xf', dirty')
+             \* (device limits: cfg.fsc = min(card FSC, device send limit) bounds every block: BlockFits)
 AllInv == Judge => \A i \in DOMAIN InvNames : InvP(InvNames[i])
 
 Real == Guarded /\ ResOk /\ AllInv
